@@ -93,7 +93,7 @@ def _recursion_complete(fn: FuncInfo, body: list, subject: str, over_values: boo
     for s in body:
         for n in ast.walk(s):
             if isinstance(n, (ast.ListComp, ast.GeneratorExp, ast.SetComp, ast.DictComp)):
-                rec = [c for c in ast.walk(n.elt if not isinstance(n, ast.DictComp) else n.value)
+                rec = [c for c in ast.walk(n)
                        if isinstance(c, ast.Call) and (dotted(c.func) or '').split('.')[-1] == name]
                 if not rec:
                     continue
